@@ -841,6 +841,19 @@ fn extract_actor_ref(repo: &std::path::Path, out: &mut Out) {
                     format!("  (\"{}\", \"{}\", \"{}\", [{}], {})", s.func, s.reason, s.label, s.errors.iter().map(|e| format!("\"{e}\"")).collect::<Vec<_>>().join(", "), fam(&s.func) == fam(&s.label) && fam(&s.func) != "?")
                 })
                 .collect();
+            let record_plain = {
+                let dl = parse_file(&repo.join("src/dead_letter.rs"))?;
+                match find_fn(&dl, "record") {
+                    Some(f) => {
+                        let b = strip_ws(&tok(&f.block));
+                        b.starts_with("{#[cfg(any(test,feature=\"test-utils\"))]DEAD_LETTER_COUNT.fetch_add(1,Ordering::Relaxed);tracing::warn!(")
+                            && b.ends_with("\"Deadletter:messagecouldnotbedelivered\");}")
+                            && b.matches(';').count() == 2
+                            && !b.contains("return") && !b.contains("if")
+                    }
+                    None => false,
+                }
+            };
             // record calls anywhere else in the crate (the actor loop, the reply path, the trait objects):
             // a dead letter is recorded only by the operation that fails
             let mut elsewhere = 0usize;
@@ -853,7 +866,8 @@ fn extract_actor_ref(repo: &std::path::Path, out: &mut Out) {
             Ok(format!(
                 "/-- every `dead_letter::record` call: (enclosing fn, reason, operation label, Error variants built in the same block, label is of the method's family) -/\n\
                  def dead_letter_sites : List (String × String × String × List String × Bool) := [\n{}\n]\n\
-                 /-- record calls (or imports of the recorder) outside src/actor_ref.rs -/\ndef dead_letter_sites_elsewhere : Nat := {elsewhere}\n",
+                 /-- record calls (or imports of the recorder) outside src/actor_ref.rs -/\ndef dead_letter_sites_elsewhere : Nat := {elsewhere}\n\
+                 /-- `dead_letter::record` is: bump the (test-utils) counter, emit the warn! event - unconditionally, nothing else -/\ndef dead_letter_record_unconditional : Bool := {record_plain}\n",
                 rows.join(",\n")
             ))
         })(),
@@ -916,7 +930,9 @@ fn extract_actor_ref(repo: &std::path::Path, out: &mut Out) {
                 let ok = file.items.iter().any(|i| match i {
                     syn::Item::Impl(im) if im.trait_.as_ref().map(|(_, p, _)| p.is_ident("Clone")).unwrap_or(false) && strip_ws(&tok(&*im.self_ty)).starts_with(ty) => {
                         let b = strip_ws(&tok(im));
-                        b.contains("id:self.id,") && b.contains("sender:self.sender.clone(),") && b.contains("terminate_sender:self.terminate_sender.clone(),")
+                        // the impl defines `clone` and nothing else (a hand-written clone_from would be a second copy routine)
+                        let only_clone = impl_fns(im).len() == 1 && impl_fns(im)[0].sig.ident == "clone";
+                        only_clone && b.contains("id:self.id,") && b.contains("sender:self.sender.clone(),") && b.contains("terminate_sender:self.terminate_sender.clone(),")
                     }
                     _ => false,
                 });
